@@ -65,7 +65,7 @@ func propC04(w *World, r *Run) {
 	ruleStoredIsCosigned(w, r, a, "C04.b")
 	ruleFreshNoShortCircuit(w, r, a, "C04.c")
 	ruleReadVerbatim(w, r, "C04.d")
-	ruleImmut(w, r, "C04.e", []fieldRef{{pWitness, "Witness", "Signers"}})
+	ruleImmut(w, r, "C04.e", immutCoreFields(w, r, "C04.e"))
 }
 
 func propC07(w *World, r *Run) {
@@ -129,11 +129,11 @@ func propC05(w *World, r *Run) {
 	ruleSameHandle(w, r, a, "C05.a")
 	ruleLockset(w, r, "C05.b")
 	ruleCompareAndSet(w, r, "C05.c")
-	ruleSnapshotPairing(w, r, "C05.d")
-	ruleTxnScope(w, r, "C05.e")
+	ruleComposedInMemory(w, r, "C05.d")
+	ruleComposedSQL(w, r, "C05.e")
 	ruleSoleWriter(w, r, "C05.e")
 	ruleGlobals(w, r, "C05.f", []string{pWitness, pBastion, pRest, pMon})
-	ruleImmut(w, r, "C05.f", immutCore)
+	ruleImmut(w, r, "C05.f", immutCoreFields(w, r, "C05.f"))
 	ruleNoInplace(w, r, a, "C05.g")
 	ruleNoNestedStorage(w, r, a, "C05.h")
 }
@@ -145,6 +145,7 @@ func propC06(w *World, r *Run) {
 	a := analyseUpdate(w, r)
 	ruleReturnIsStored(w, r, a, "C06.a")
 	ruleCommitBeforeAck(w, r, "C06.a")
+	ruleComposedSQL(w, r, "C06.a")
 	ruleOneStatement(w, r, "C06.b")
 	ruleSoleWriter(w, r, "C06.c")
 	ruleStorageRefusal(w, r, "C06.d")
@@ -197,7 +198,7 @@ func propC15(w *World, r *Run) {
 	r.notdec = []string{"validity of the signatures as numbers", "behaviour of net/http (redirect policy beyond the method check)", "more than two loop iterations (the loop body is identical per iteration)"}
 	r.trusted = append(tbCommon, "formats/log.ParseCheckpoint (Sigs lists verified signatures only), net/http client")
 	ruleDistributor(w, r)
-	ruleImmut(w, r, "C15.a", []fieldRef{{pRest, "Distributor", "logs"}, {pRest, "Distributor", "witSigV"}, {pRest, "Distributor", "witness"}, {pRest, "Distributor", "baseURL"}})
+	ruleImmut(w, r, "C15.a", immutCoreFields(w, r, "C15.a"))
 }
 
 func propC16(w *World, r *Run) {
@@ -224,15 +225,15 @@ func propC12(w *World, r *Run) {
 	a := analyseUpdate(w, r)
 	ruleKeyPassThrough(w, r, a, "C12.a")
 	ruleReadVerbatim(w, r, "C12.a")
-	ruleStorageKeyed(w, r, "C12.b")
-	ruleSnapshotPairing(w, r, "C12.b")
+	ruleComposedInMemory(w, r, "C12.b")
+	ruleComposedSQL(w, r, "C12.b")
 	ruleOneStatement(w, r, "C12.b")
 	ruleIDDerivation(w, r, "C12.c")
 	ruleConfigKeying(w, r, "C12.c")
 	ruleAuthBeforeUse(w, r, a, "C12.f")
 	ruleOneWitness(w, r, "C12.d")
 	ruleGlobals(w, r, "C12.e", []string{pWitness, pBastion, pRest, pMon, pInmem, pSQL, pOmni, pConfig, pFeeder})
-	ruleImmut(w, r, "C12.e", immutCore)
+	ruleImmut(w, r, "C12.e", immutCoreFields(w, r, "C12.e"))
 }
 
 func propC14(w *World, r *Run) {
